@@ -5,8 +5,11 @@ F(p) == [kind |-> "file", path |-> p, abs |-> FALSE]
 D(p) == [kind |-> "dir", path |-> p, abs |-> FALSE]
 OutMenuFull == { F(<<"o">>), F(<<".", "o">>), F(<<"d", "..", "o">>), D(<<"d">>), D(<<"d", ".">>), F(<<"d", "x">>), D(<<"d", "e">>),
                  [kind |-> "docker", path |-> <<"img">>, abs |-> FALSE], F(<<"..", "o">>), F(<<"..", "..", "..", "o">>),
-                 D(<<"..", "..", "..", "x">>), [kind |-> "file", path |-> <<"abs">>, abs |-> TRUE], D(<<"..", "d">>) }
+                 D(<<"..", "..", "..", "x">>), [kind |-> "file", path |-> <<"abs">>, abs |-> TRUE], D(<<"..", "d">>),
+                 F(<<"..", "..", "SIB", "o">>), D(<<"..", "..", "SIB">>) }
 OutMenuQuick == { F(<<"o">>), F(<<"d", "..", "o">>), D(<<"d">>), F(<<"d", "x">>), D(<<"d", "e">>),
                   [kind |-> "docker", path |-> <<"img">>, abs |-> FALSE], F(<<"..", "o">>), F(<<"..", "..", "..", "o">>),
-                  D(<<"..", "..", "..", "x">>), D(<<"..", "d">>) }
+                  D(<<"..", "..", "..", "x">>), D(<<"..", "d">>), F(<<"..", "..", "SIB", "o">>) }
+\* "SIB" is rendered as <name of the workspace directory>-x: from package p the path ../../SIB/o is a sibling of the workspace whose
+\* name has the workspace's name as a string prefix (outside); from p/d it is a directory inside the workspace
 ====
